@@ -130,7 +130,7 @@ def start_record(rng, xs, ys):
         return {"x": [R(v) for v in xs], "y": [R(v) for v in ys], "container": rng.choice(["array", "array", "list", "int"])}
     if r < 0.8 and all(v == i for i, v in enumerate(xs)):
         return {"x": [R(v) for v in xs], "y": [R(v) for v in ys], "ctor": "none_x"}
-    return {"x": [R(v) for v in xs], "y": [R(v) for v in ys], "ctor": rng.choice(["2d", "csv", "df"])}
+    return {"x": [R(v) for v in xs], "y": [R(v) for v in ys], "ctor": rng.choice(["2d", "csv", "df", "df_named", "df_swapped"])}
 
 
 def random_start(rng, mmin=4, mmax=12):
